@@ -64,7 +64,7 @@ def main():
         })
     m = {
         "version": 1,
-        "setup_cmd": "cd /verif/sim && CARGO_NET_OFFLINE=true cargo build --offline",
+        "setup_cmd": "cd /verif/sim && CARGO_NET_OFFLINE=true cargo build --offline && cd /repo && CARGO_NET_OFFLINE=true CARGO_TARGET_DIR=/verif/target/cli cargo build --offline -p klukai",
         "hooks": {
             "guard": "cargo feature `verif` on klukai-types and klukai-agent (default features do not include it)",
             "enable": "the simulator crate depends on /repo/crates/klukai-{types,agent} by path with features = [\"verif\"]; every check runs `cargo build --offline` in /verif/sim first, which rebuilds the klukai crates from /repo's working tree",
